@@ -461,7 +461,49 @@ func genERC20(r *lib.Rand, tier string) History {
 			g.enable = true
 			continue
 		}
-		switch r.Weighted(2, 9, 8, 6, 1, 1, 2, 1) {
+		switch r.Weighted(2, 9, 8, 6, 1, 1, 2, 1, 5) {
+		case 8: // swap-to-native through the EVM hook
+			var hs []int
+			for _, a := range []int{0, 1, 2, 3, 200, 201} {
+				if b := g.erc[t.min][a]; b != nil && b.Sign() > 0 {
+					hs = append(hs, a)
+				}
+			}
+			if len(hs) == 0 && r.Chance(5, 6) {
+				continue // nothing to swap back yet
+			}
+			from := r.Intn(g.n)
+			b := big.NewInt(0)
+			if len(hs) > 0 && r.Chance(14, 15) {
+				from = hs[r.Intn(len(hs))]
+				b = g.erc[t.min][from]
+			}
+			amt := pick(r, big.NewInt(1), new(big.Int).Set(b), new(big.Int).Set(b), r.BigRange(big.NewInt(1), b), r.BigRange(big.NewInt(1), b), r.BigRange(big.NewInt(1), b), new(big.Int).Add(b, big.NewInt(1)))
+			if r.Chance(1, 30) || amt.Sign() == 0 {
+				amt = pick(r, big.NewInt(0), big.NewInt(1), big.NewInt(1))
+			}
+			if amt.Sign() < 0 {
+				amt = big.NewInt(1)
+			}
+			to := pick(r, r.Intn(g.n), r.Intn(g.n), from)
+			if to >= 200 {
+				to = r.Intn(g.n)
+			}
+			if r.Chance(1, 12) {
+				to = accFeeCol
+			}
+			if r.Chance(1, 30) {
+				to = -1
+			}
+			if t.deployed && g.enable && amt.Sign() > 0 && amt.Cmp(b) <= 0 && to >= 0 && to != accFeeCol {
+				g.erc[t.min][from].Sub(g.erc[t.min][from], amt)
+				if t.bal[to] == nil {
+					t.bal[to] = big.NewInt(0)
+				}
+				t.bal[to].Add(t.bal[to], amt)
+				t.supply.Add(t.supply, amt)
+			}
+			h.Steps = append(h.Steps, Op{K: "hook", A: from, B: to, Min: t.min, Amt: amt.String()})
 		case 0: // deploy
 			a := accGov
 			if r.Chance(1, 8) {
@@ -484,7 +526,7 @@ func genERC20(r *lib.Rand, tier string) History {
 			if amt.Sign() <= 0 {
 				amt = big.NewInt(1)
 			}
-			recv := pick(r, hd, r.Intn(g.n), r.Intn(g.n), 200, 201)
+			recv := pick(r, hd, hd, r.Intn(g.n), r.Intn(g.n), r.Intn(g.n), 200, 201)
 			if r.Chance(1, 40) {
 				recv = -1
 			}
@@ -507,9 +549,12 @@ func genERC20(r *lib.Rand, tier string) History {
 					hs = append(hs, a)
 				}
 			}
+			if len(hs) == 0 && r.Chance(5, 6) {
+				continue // no actor holds the ERC20 form yet
+			}
 			sender := r.Intn(g.n)
 			b := big.NewInt(0)
-			if len(hs) > 0 && r.Chance(9, 10) {
+			if len(hs) > 0 && r.Chance(14, 15) {
 				sender = hs[r.Intn(len(hs))]
 				b = g.erc[t.min][sender]
 			}
@@ -682,7 +727,7 @@ func (n *nonTrivial) note(w *world, op Op, ok bool) {
 				n.st["nt:stranger"]++
 			}
 		}
-	case "toerc20", "fromerc20":
+	case "toerc20", "fromerc20", "hook":
 		if ok {
 			n.convOK++
 		} else {
